@@ -10,9 +10,11 @@
                                         sendCreateIfNew, one reader step)
      6. closed system                  (history steps, run)
 
-   The model follows the code AS IT IS.  Behaviour that DESIGN section 9 / C17 lists as defective is kept and
-   is switchable by the three flags of [cfg]; [cfg_repo] is the tree as checked in. After a fix in /repo the
-   corresponding flag of [cfg_repo] is flipped — that is the whole edit. *)
+   The model follows the code AS IT IS.  Three defects of DESIGN section 9 / C17 have been repaired in /repo
+   (commits 833aa17 and c3f1f06); the three flags of [cfg] switch between the behaviour before and after:
+   [cfg_repo] is the tree as checked in (all three repairs), [cfg_before_fix] the tree before them (kept for the
+   seeded-defect tests: the check must report a tree whose Close is reverted).  The remaining defects
+   (KNOWN_FINDINGS.txt) are modelled as they are. *)
 From Coq Require Import String Ascii NArith List Bool.
 From stdpp Require Import gmap strings.
 Import ListNotations.
@@ -22,12 +24,13 @@ Local Open Scope N_scope.
 (* ------------------------------------------------------------------ 0. configuration *)
 
 Record cfg := {
-  fx_close : bool;       (* Close removes the watches although the watcher is already marked closed   (false: F3)          *)
-  fx_user_clean : bool;  (* addUserWatch records the cleaned name                                     (false: C17 unclean)  *)
-  fx_fifo_user : bool;   (* Add of a FIFO/socket does not record a user watch                         (false: C17 fifo)     *)
+  fx_close : bool;       (* Close and the child loop use the unguarded remove; the closed-guard sits in Remove   (833aa17; false: F3) *)
+  fx_user_clean : bool;  (* addUserWatch records filepath.Clean(name)                                            (c3f1f06)            *)
+  fx_fifo_user : bool;   (* AddWith returns without a user watch when addWatch returned ""  (FIFO / socket)      (c3f1f06)            *)
 }.
-Definition cfg_repo : cfg := {| fx_close := false; fx_user_clean := false; fx_fifo_user := false |}.
-Definition cfg_fixed : cfg := {| fx_close := true; fx_user_clean := true; fx_fifo_user := true |}.
+Definition cfg_repo : cfg := {| fx_close := true; fx_user_clean := true; fx_fifo_user := true |}.
+Definition cfg_before_fix : cfg := {| fx_close := false; fx_user_clean := false; fx_fifo_user := false |}.
+Definition cfg_fixed : cfg := cfg_repo.
 
 (* ------------------------------------------------------------------ 1. path text *)
 
